@@ -51,3 +51,10 @@ Theorem C15_request_acknowledged : forall c idx e r s,
              o_w s' = put_cursor (do_store c (o_w s) (bump (set_state (set_obj r ODeleted) RSDataDeleted))) EDelete (S idx).
 Proof. exact delete_iteration_ff. Qed.
 Print Assumptions C15_request_acknowledged.
+
+(* THE DELETE CONSUMER ALWAYS EXISTS, for every configuration and whatever the other build options (corollary of
+   C10_launch_exact; tie: `launch` family, and API=-1 in the engine harness, which C15's monitor reports) *)
+From WF Require Import model.Launch proofs.LaunchProofs.
+Theorem C15_delete_consumer_always_launched : forall c, In UDelete (launch c).
+Proof. intros c. apply launch_units. right. left. reflexivity. Qed.
+Print Assumptions C15_delete_consumer_always_launched.
